@@ -113,6 +113,9 @@ def run_raw_once(eng, case):
     return ev, proj
 
 
+_COUNT = [0]
+
+
 def make_server(srv, nad, case, cache={}):
     key = (case['what'], case['logins'], case['total'], case['reserved'])
     s = cache.get(key)
@@ -132,7 +135,8 @@ def make_server(srv, nad, case, cache={}):
             o.audio_buses, o.reserved_audio_buses = case['total'] + 4, case['reserved']
         else:
             o.initial_node_id = case['total']
-        s = srv.Server('c16_%d' % len(cache), nad.NetAddr('127.0.0.1', 57300 + len(cache)), o)
+        _COUNT[0] += 1
+        s = srv.Server('c16_%d' % _COUNT[0], nad.NetAddr('127.0.0.1', 57300 + _COUNT[0]), o)
         cache[key] = s
     s._set_client_id(case['client'])        # fresh allocators for this client id
     if s.client_id != case['client']:
@@ -140,12 +144,73 @@ def make_server(srv, nad, case, cache={}):
     return s
 
 
+def registered_server(mods, case, i, cache={}):
+    """Server object number i of a 'reg' case, registered the way the library does it when the server answers
+    '/notify': via = 'handler' calls ServerStatusWatcher._handle_login_done(client id, reported max logins) - what the
+    '/done /notify' responder calls; via = 'reply' (RT) sends the notify request with the watcher in its registering
+    state and feeds the reply datagram ['/done', '/notify', id, maxLogins] to the OSC interface's request handler."""
+    srv, nad, bus, buf = mods
+    sv = case['servers'][i]
+    key = (case['what'], sv['local'], case['total'], case['reserved'], i)
+    s = cache.get(key)
+    if s is None:
+        s = make_server(srv, nad, dict(what=case['what'], logins=sv['local'], total=case['total'],
+                                       reserved=case['reserved'], client=0), cache={})
+        cache[key] = s
+    sw = s._status_watcher
+    sw._max_logins = None           # not registered (what _unregister leaves behind)
+    s._set_client_id(0)             # fresh allocators of an unregistered client
+    rep = case['reported'] or None
+    if case.get('via', 'handler') == 'handler':
+        sw._handle_login_done(sv['client'], rep)
+    else:
+        import struct
+        import time
+        import sc3.base.main as bm
+        iface = bm.main._osc_interface
+        iface._send = lambda msg, target: None       # nothing leaves the process
+        sw._notified = False
+        sw._server_registering = True
+        sw._send_notify_request(True)
+        d = b'/done\0\0\0' + (b',sii\0\0\0\0' if rep else b',si\0') + b'/notify\0' + struct.pack('>i', sv['client'])
+        if rep:
+            d += struct.pack('>i', rep)
+        iface._handle_request(d, (s.addr.hostname, s.addr.port))
+        t0 = time.time()
+        while not sw._notified and time.time() - t0 < 5:
+            time.sleep(0.002)
+        sw._server_registering = False
+        if not sw._notified:
+            raise RuntimeError('registration reply was not processed')
+    return s
+
+
 def run_srv_once(mods, case):
     srv, nad, bus, buf = mods
-    s = make_server(srv, nad, case)
+    if case['kind'] == 'reg':
+        servers = [registered_server(mods, case, i) for i in range(len(case['servers']))]
+    else:
+        servers = [make_server(srv, nad, case)]
     what = case['what']
     ev, objs = [], []
+    evs = ev
     for h in case['hist']:
+        wi = h[2] if len(h) > 2 else 1
+        s = servers[wi - 1]
+        ev = []
+        if h[0] == 'f' and h[1] < len(objs) and objs[h[1]][1]:
+            wi = objs[h[1]][0]
+        _srv_step(mods, what, s, h, objs, ev, wi)
+        for e in ev:
+            e['w'] = wi
+        evs.extend(ev)
+    return evs, []
+
+
+def _srv_step(mods, what, s, h, objs_w, ev, wi):
+    srv, nad, bus, buf = mods
+    objs = _ObjView(objs_w, wi)
+    if True:
         if h[0] == 'a':
             n = h[1]
             try:
@@ -187,7 +252,21 @@ def run_srv_once(mods, case):
                     ev.append(dict(n='free', x=-1 if addr is None else addr, k='exc:' + type(ex).__name__, r=-2))
         else:
             ev.append(dict(n='free', x=-1, k='ok', r=-1))
-    return ev, []
+
+
+class _ObjView:
+    """objs_w holds (w, objects) per alloc of the history; the step code sees plain object lists"""
+    def __init__(self, lst, wi):
+        self.lst, self.wi = lst, wi
+
+    def append(self, o):
+        self.lst.append((self.wi, o))
+
+    def __len__(self):
+        return len(self.lst)
+
+    def __getitem__(self, k):
+        return self.lst[k][1]
 
 
 def run_with_tiebreaks(case, once):
@@ -261,6 +340,12 @@ def main():
             t = run_ids(mods, eng, case)
             t['case'] = ci
             out.append(t)
+            continue
+        if case['kind'] == 'reg':
+            parts = [dict(total=case['total'], logins=sv['local'], reported=case['reported'], reserved=case['reserved'],
+                          io=4 if case['what'] == 'abus' else 0, client=sv['client']) for sv in case['servers']]
+            for choices, ev, proj, points in run_with_tiebreaks(case, lambda c: run_srv_once(mods, c)):
+                out.append(dict(case=ci, parts=parts, ev=ev, choices=choices, points=points))
             continue
         if case['kind'] == 'raw':
             part = dict(total=case['size'], logins=1, reserved=case['pos'], io=case['off'], client=0)
